@@ -217,7 +217,7 @@ def run(prog: Program, rep, tier="quick"):
         knows_backslash = False
         for x in ast.walk(f.node):
             if isinstance(x, ast.Compare):
-                for cpt in x.comparators:
+                for cpt in [x.left] + x.comparators:
                     v = LF.try_fold(cpt)
                     if v in (ord("\\"), b"\\"):
                         knows_backslash = True
